@@ -70,7 +70,7 @@ framing_of(coap_proto_t p) {
   return RM_WS;
 }
 
-static const uint32_t TOK_Q[] = {0, 1, 8, 12, 13, 14, 268, 269, 270};
+static const uint32_t TOK_Q[] = {0, 1, 8, 12, 13, 14, 268, 269, 270, 600};  /* 600: the two-byte extended length with a non-zero high byte */
 static const uint32_t TOK_T[] = {0, 1, 8, 12, 13, 14, 268, 269, 270, 4096, 65804};
 static size_t g_api_tok_max = 65804; /* longest token coap_add_token() accepts in this build, probed at start-up */
 static const uint32_t TOK_S[] = {0, 8, 13, 269};
@@ -1044,7 +1044,7 @@ main(int argc, char **argv) {
     h->kind = 1;
     h->nproto = np;
     h->toks = T ? TOK_T : TOK_Q;
-    h->ntok = T ? 11 : 9;
+    h->ntok = T ? 11 : 10;
     h->total = (uint64_t)np * 4 * 6 * 3 * (uint64_t)h->ntok * 4 * 2 * 2;
     /* forced Len */
     struct space *l = &spaces[ns++];
